@@ -56,6 +56,11 @@ def followup(stage, lines, model, checked, release, tier, rng):
                 ops.append(" ".join(t))
             else:
                 ops.append("%s::SecretKey::sign %s %s none 0 real" % (K.API[s], sk, K.hx(msg)))
+            # deterministic signing through long rejection streaks (a key with an extreme t0 rejects most iterations):
+            # still no draw, and the same signature every time
+            csk = K.craft_sk(s, sk, p.k, (0.7 if p.gamma2 == (S.Q - 1) // 88 else 1.0), rng)
+            for _ in range(2):
+                ops.append("sign::%s::signature %s %s 0 real" % (s, K.hx(R(8)), csk))
             ops.append("sign::%s::keypair %s real" % (s, "00" * 32))      # boundary seeds: still no draw
             ops.append("sign::%s::keypair %s real" % (s, "ff" * 32))
             for op in ops:
